@@ -19,6 +19,16 @@ Theorem C10_paths : forall ks, Forall (fun k => is_empty k = false) ks -> render
 Proof. exact render_pushes. Qed.
 Print Assumptions C10_paths.
 
+(** SanitizeList / SanitizeMap: the same keys, every list of the same length and order, carrying
+    exactly the messages of the issues *)
+Theorem C10_sanitize : forall (msg : issue -> string) (m : imap),
+  map fst (sanitize_map msg m) = map fst m
+  /\ (forall k, alookup k (sanitize_map msg m) = option_map (sanitize_list msg) (alookup k m))
+  /\ (forall l, length (sanitize_list msg l) = length l)
+  /\ (forall l n d, n < length l -> nth n (sanitize_list msg l) (msg d) = msg (nth n l d)).
+Proof. exact sanitize_spec. Qed.
+Print Assumptions C10_sanitize.
+
 (** which key: the source's own tag, else `zog`, else the schema key *)
 Theorem C10_field_key : forall pv tags k,
   snd (get_by_field pv tags k) =
